@@ -12,6 +12,17 @@ CHECKS = {
             "Trusted: the Python reference (ref_num.py) and the canonical encoder hook. Operands outside the alphabet are not covered; "
             "inexact n-ary folds, float formatting and (/ x 0) with inexact x are left unspecified.",
             "DESIGN.md §3 C10"),
+    "C17": ("exploration",
+            "exhaustive enumeration of interrupt arrival points at gate granularity on the real engine: program shape x execution tier x k-th gate (hook H7) at which the request is issued from inside the hook callback",
+            "37 long-running program shapes (tail / mutual / named-let / do loops, recursion, loops driven by map, foldl, for-each, filter, sort, transduce callbacks, endless loops "
+            "inside such callbacks, in an error handler, in dynamic-wind before/body/after thunks, continuation re-entry and generator loops, apply loops, primitive-calling, "
+            "allocating (also with a forced full collection at every allocation), global-assigning, global-defining, collecting and sleeping loops) x {native code generation on, off}; "
+            "the bounded variant of each shape runs first so hot code is compiled; then the request is issued at the k-th gate the engine thread passes, for EVERY k in 1..150 "
+            "(thorough 1500), whatever gate that is (dispatch, safepoint publish / finished / retract / left, stop / scan / resume of the world); one delayed request from a "
+            "watchdog thread per shape. Oracle: run returns the interrupt error within 64 further instruction dispatches (4 s wall clock = hang); after resume() a probe and the "
+            "bounded variant answer correctly and both VM stacks are empty.",
+            "Arrival between two gates is equivalent to arrival at the later gate (the flag is only read at gates). Primitives that run long without script steps are outside the property's bound.",
+            "DESIGN.md §3 C17"),
     "C19": ("model_checking",
             "explicit-state BFS over heap-graph event histories executed on the real engine (state = canonical form of a Python twin of the heap graph; every (state, enabled event) pair executed by replaying the state's shortest history on a fresh engine), plus exhaustive pattern x thread-count grid of bounded-live-set loops with heap statistics sampled after forced collections",
             "Events: allocate box / mutable vector / mutable struct into one of 3 global roots (set! or re-define), link, self-link, unlink, drop, capture in a closure / in a "
